@@ -204,6 +204,12 @@ def _c02_o6(W, ob):
 
 from . import inventory
 
+
+def _c18_window(W, ob):
+    from . import c18 as _m
+    return _m.window_prunes(W, ob)
+
+
 OBLIGATIONS = [
     ('C09.O1', 'examine before confirm', 'in advance_frame_after_poll no checksum send/compare site is reachable after a call that may reach '
      'set_last_confirmed_frame; both run on every advance while detection is on.', o1),
@@ -213,6 +219,7 @@ OBLIGATIONS = [
      'the local value for that key under their inequality; compared entries are removed.', o3),
     ('C09.O4', 'interval 0 rejected', 'start_p2p_session returns InvalidRequest for DesyncDetection::On{interval: 0} before constructing.', o4),
     ('C09.O5', 'the checksum of a frame is that of its last simulation (= C02.O6)', 'checksums are read from the save cells: every frame that is simulated again is saved again (and the per-call save is unconditional), otherwise a cell keeps the checksum of a mispredicted simulation and both peers raise a false DesyncDetected; see C02.O6', _c02_o6),
+    ('C09.O6', 'history maps are pruned by a sliding window (= C18.O11)', 'see C18.O11: a clamped threshold evicts the blank reference frame a first packet decodes against, a threshold merged with the ack never moves on a receive-only endpoint, a `!=` keeps all but one checksum', _c18_window),
     ('C09.H', 'helpers the rules above rely on', 'the bodies of the helpers named by this property\'s rules compute what the rules assume (checksum_report, cell_accessors, saved_state_by_frame); see rules/helpers.py', helpers.bundle('checksum_report', 'cell_accessors', 'saved_state_by_frame')),
     ('C09.I', 'initial state', 'every constructor gives the fields this property\'s rules interpret (NULL_FRAME = none / nothing yet, 0 = first frame, latches open, typestate start) the value listed in tables/initial_state.json; every field compared with NULL_FRAME anywhere is listed; see rules/initial.py', initial.rule_for('C09')),
     ('C09.C', 'lossy integer casts', 'every sign-changing cast (signed -> unsigned; NULL_FRAME is -1) and every narrowing cast to < 32 bits or from 128 bits in the crate is in range by a dominating guard, by the shape of its operand, or listed with a reason in tables/casts.json; see rules/casts.py', casts.rule),
